@@ -514,8 +514,15 @@ fn growth_pass(cfg: &Cfg, order: &str, n: usize, transitions: &mut u64) -> Resul
 		}
 	};
 	let mut path: Vec<Bop> = vec![];
-	let mut ops: Vec<Bop> = (0..n).map(|i| Bop::Insert(idx(i), 0)).collect();
-	ops.extend((0..n).map(|i| Bop::Delete(idx((i * 7 + 3) % n))));
+	// size class by key, so that large (overflow) values are spread over the leaves
+	let nsz = cfg.sizes.len();
+	let mut ops: Vec<Bop> = (0..n).map(|i| Bop::Insert(idx(i), idx(i) % nsz)).collect();
+	match order {
+		// deletes in the opposite key order of the inserts (borrows from the left sibling)
+		"ascending" => ops.extend((0..n).rev().map(Bop::Delete)),
+		"descending" => ops.extend((0..n).map(Bop::Delete)),
+		_ => ops.extend((0..n).map(|i| Bop::Delete(idx((i * 7 + 3) % n)))),
+	}
 	let mut res = None;
 	for op in ops {
 		path.push(op);
@@ -554,6 +561,17 @@ fn growth_configs() -> Vec<(Cfg, usize)> {
 				prefill: vec![],
 			},
 			140,
+		),
+		(
+			Cfg {
+				name: "growth-overflow-mix",
+				timestamp_cmp: false,
+				key_len: 24,
+				nkeys: 90,
+				sizes: vec![100, 60, 5000],
+				prefill: vec![],
+			},
+			90,
 		),
 		(
 			Cfg {
